@@ -100,6 +100,29 @@ Definition dtable_boundary_ok (t : dtable) : bool :=
 Definition fan_boundary_ok (nmax : nat) : bool :=
   forallb (fun n => subdivision_ok n 0 [] (fan n)) (seq 3 (nmax - 2)).
 
+(** ** split_column(colname, nodename): a quadrilateral split at local node i0
+      i = [(i0 + j) % nn for j in range(nn)]
+      col2 = column(colname2, node = [col.node[i[2]], col.node[i[3]], col.node[i[0]]], surface = col.surface)
+      del col.node[i[3]]              (the old column keeps i0, i1, i2 in their cyclic order) *)
+Definition split_entry : entry := gen_split_entry.      (* regenerated from split_column's AST *)
+Definition split_model (nn i0 : nat) : option (nat * entry) :=
+  if (nn =? 4) && (i0 <? 4) then Some (i0, split_entry) else None.      (* returns False otherwise *)
+Definition split_boundary_ok : bool := forallb (fun i0 => subdivision_ok 4 i0 [] split_entry) (seq 0 4).
+
+(** ** surfaces: every new column is created with  surface = col.surface  (refine, subdivide_column,
+    split_column's col2; split_column's shrunk column keeps its own attribute).  [None] = no surface set *)
+Definition subdivide_cols {S : Type} (surface : S) (e : entry) : list (child * S) := map (fun ch => (ch, surface)) e.
+Lemma surface_inherited_ {S : Type} (s : S) (e : entry) x : In x (subdivide_cols s e) -> snd x = s /\ In (fst x) e.
+Proof. unfold subdivide_cols. intro H. apply in_map_iff in H. destruct H as [ch [<- Hc]]. auto. Qed.
+Lemma subdivide_cols_children {S : Type} (s : S) (e : entry) : map fst (subdivide_cols s e) = e.
+Proof. unfold subdivide_cols. rewrite map_map. cbn [fst]. apply map_id. Qed.
+
+(** the boundary left by a subdivision is duplicate-free for every side set of 3- and 4-gons
+    and for the unsplit 5..8-gons (needed to turn set equality into equality of sums) *)
+Definition expected_nodup_ok : bool :=
+  forallb (fun nn => forallb (fun s => enodup (expected_boundary nn s)) (sublists (seq 0 nn))) [3; 4]
+  && forallb (fun nn => enodup (expected_boundary nn [])) (seq 3 14).
+
 (** ** exact rational geometry for the driver (same definitions as Geom.v, over Q) *)
 Open Scope Q_scope.
 Definition qpt := (Q * Q)%type.
